@@ -6,5 +6,5 @@ CONSTANTS
   ParamSet = {}
   MaxSteps = 1000
   MaxRuns = 1000
-INVARIANTS NotAccepted Progress QuirkReport EnergyIsSumOfHills ScheduleOK QuirkScope
+INVARIANTS Progress QuirkReport EnergyIsSumOfHills ScheduleOK QuirkScope
 CHECK_DEADLOCK FALSE
